@@ -447,9 +447,9 @@ fn check_bufsim(o: &Opts, prop: Prop) {
 	let known = load_known(&o.verif);
 	let thorough = o.tier == "thorough";
 	let total = match prop {
-		Prop::C04 => tier_runs(o, 3_000_000, 60_000_000),
-		Prop::C10 => tier_runs(o, 2_000_000, 30_000_000),
-		Prop::C11 => tier_runs(o, 3_000_000, 60_000_000),
+		Prop::C04 => tier_runs(o, 6_000_000, 60_000_000),
+		Prop::C10 => tier_runs(o, 4_000_000, 30_000_000),
+		Prop::C11 => tier_runs(o, 6_000_000, 60_000_000),
 	};
 	println!("irefsim bufsim property={} tier={} seed={} runs={} jobs={} profile={}", prop.id(), o.tier, o.seed, total, o.jobs, o.profile);
 	let (corpus_n, mut known_lines) = run_corpus(o, &known, prop.id());
@@ -654,7 +654,7 @@ struct IterWorker {
 fn check_itersim(o: &Opts) {
 	let t0 = Instant::now();
 	let known = load_known(&o.verif);
-	let total = tier_runs(o, 20_000_000, 1_200_000_000);
+	let total = tier_runs(o, 40_000_000, 1_200_000_000);
 	println!("irefsim itersim property=C12 tier={} seed={} runs={} jobs={}", o.tier, o.seed, total, o.jobs);
 	let (corpus_n, known_lines) = run_corpus(o, &known, "C12");
 	let seed = o.seed;
@@ -804,7 +804,7 @@ fn check_allocsim(o: &Opts) {
 	let t0 = Instant::now();
 	let known = load_known(&o.verif);
 	let thorough = o.tier == "thorough";
-	let total = tier_runs(o, 8_000_000, 600_000_000);
+	let total = tier_runs(o, 16_000_000, 600_000_000);
 	println!("irefsim allocsim property=C20 tier={} seed={} runs={} jobs={}", o.tier, o.seed, total, o.jobs);
 	let (corpus_n, known_lines) = run_corpus(o, &known, "C20");
 	let seed = o.seed;
